@@ -43,13 +43,60 @@ def gen_sub(rng):
     return dict(kind="sub", topics=ts, props=ps)
 
 
-def run(ctx, n):
+BAD_STR = [b"\x01", b"a\x1fb", b"\xc3", b"\xc3\x28", b"\xef\xbf\xbe", b"\xef\xb7\x90", b"\xed\xa0\x80", b"\xf8\x90\x80\x80", b"\x7f", b"x" * 65536]
+GOOD_STR = [b"", b"k", b"v", "é".encode(), b"resp/t"]
+
+
+def gen_focus(rng):
+    """requests that are valid except possibly for one ill-formed string somewhere in their properties, next to other (valid) properties:
+    the combinations a per-property test never sees"""
+    bad = rng.random() < 0.5
+    def s_(): return rng.choice(GOOD_STR)
+    if rng.random() < 0.5:
+        ps = []
+        if rng.random() < 0.6: ps.append((11, rng.choice([1, 127, 268435455])))
+        ups = [(s_(), s_()) for _ in range(rng.randint(0, 3))]
+        if bad:
+            k = rng.randrange(len(ups) + 1); b = rng.choice(BAD_STR)
+            ups.insert(k, (b, s_()) if rng.random() < 0.5 else (s_(), b))
+        ps += [(38, u) for u in ups]
+        if rng.random() < 0.5: rng.shuffle(ps)
+        n = rng.choice([1, 2])
+        return dict(kind="sub", topics=[(rng.choice([b"t", b"a/#", b"+/x"]), (rng.randint(0, 2), 0, 0, 0)) for _ in range(n)], props=ps)
+    ps = []
+    if rng.random() < 0.4: ps.append((1, 0))
+    if rng.random() < 0.4: ps.append((2, 60))
+    if rng.random() < 0.4: ps.append((9, b"cd"))
+    slots = [(8, b"resp/t"), (3, b"text/plain")] + [(38, (s_(), s_())) for _ in range(rng.randint(0, 2))]
+    slots = [x for x in slots if rng.random() < 0.7]
+    if bad:
+        b = rng.choice(BAD_STR[:-1]); k = rng.choice(["resp", "ct", "uk", "uv"])
+        new = {"resp": (8, rng.choice([b, b"a/#", b"+"])), "ct": (3, b), "uk": (38, (b, s_())), "uv": (38, (s_(), b))}[k]
+        if new[0] != 38: slots = [x for x in slots if x[0] != new[0]]       # response topic / content type occur once in a request
+        slots.append(new)
+    ps += slots
+    if rng.random() < 0.5: rng.shuffle(ps)
+    return dict(kind="pub", qos=rng.randint(0, 2), retain=0, topic=b"t", payload=b"p", props=ps)
+
+
+def ill_formed(rq):
+    """independent oracle (Python's strict UTF-8 decoder + the MQTT character rules of props/c16.py): is a string of the request ill-formed?"""
+    import importlib; c16 = importlib.import_module("props.c16")
+    for pid, v in rq["props"]:
+        if pid == 38 and not (c16.spec_string(v[0]) and c16.spec_string(v[1])): return f"user property {v[0][:12]!r}/{v[1][:12]!r}"
+        if pid == 3 and not c16.spec_string(v): return f"content type {v[:12]!r}"
+        if pid == 8 and not c16.spec_name(v): return f"response topic {v[:12]!r}"
+    return None
+
+
+def run(ctx, n, focus=False):
     mdrv, _ = build_mdrv(); hb, hlog = build_harness("h_client")
     if hb is None: ctx.ties_broken.append("harness:h_client does not compile: " + hlog[-500:]); return False
     if mdrv is None: return False
     rng = ctx.rng; h = Harness(hb); qs = []; impl = []; found = False
     for k in range(n):
-        caps = gen_caps(rng); rq = gen_pub(rng) if rng.random() < 0.6 else gen_sub(rng)
+        if focus: caps = {}; rq = gen_focus(rng)
+        else: caps = gen_caps(rng); rq = gen_pub(rng) if rng.random() < 0.6 else gen_sub(rng)
         ctext = ref.plist_text(sorted(caps.items()))
         h.send("new"); h.send("cfg ka=0 cid=63"); h.send("run R"); h.send(f"reconnect 0 1 {ctext}"); h.send("rdone 0 try_again")
         if rq["kind"] == "pub":
@@ -68,6 +115,13 @@ def run(ctx, n):
         elif dn and not wr and dn[0].split()[2].startswith("client:"): res = "err " + dn[0].split()[2].split(":")[1]
         else: res = "other " + " | ".join(evs)[:120]
         impl.append(res); qs.append(q)
+        why = ill_formed(rq) if focus else None
+        if why and res.startswith("ok") and not found:
+            found = True
+            ctx.violation("validate-accepts-ill-formed", {"what": "C16: a request with an ill-formed string was accepted and written: " + why, "request": line, "client": res[:200]})
+        if focus and not why and res.startswith("err") and not found:
+            found = True
+            ctx.violation("validate-rejects-well-formed", {"what": "C16: a well-formed request was rejected", "request": line, "client": res[:200]})
         ctx.count("validate-" + rq["kind"] + ("-err" if res.startswith("err") else "-ok"))
     h.close()
     model, _, _ = run_lines(mdrv, qs)
